@@ -44,32 +44,25 @@ def refName (P : Prim) (cfg : RefCfg) (id : String) : Except Err PVal :=
   else P.dynft id
 
 def rList (self : Env → Expr → Except Err PVal) (env : Env) : List Expr → Except Err (List PVal)
-  | [] => .ok []
-  | e :: es =>
-    match self env e with
-    | .error x => .error x
-    | .ok v =>
-      match rList self env es with
-      | .error x => .error x
-      | .ok vs => .ok (v :: vs)
+  | [] => pure []
+  | e :: es => do
+    let v ← self env e
+    let vs ← rList self env es
+    pure (v :: vs)
 
 def rKwargs (self : Env → Expr → Except Err PVal) (env : Env) : List (String × Expr) → Except Err (List (String × PVal))
-  | [] => .ok []
-  | (k, e) :: es =>
-    match self env e with
-    | .error x => .error x
-    | .ok v =>
-      match rKwargs self env es with
-      | .error x => .error x
-      | .ok vs => .ok ((k, v) :: vs)
+  | [] => pure []
+  | (k, e) :: es => do
+    let v ← self env e
+    let vs ← rKwargs self env es
+    pure ((k, v) :: vs)
 
 /-- `a and b and …` / `a or b or …`: the first operand that decides, else the last -/
 def rBool (P : Prim) (self : Env → Expr → Except Err PVal) (env : Env) (isOr : Bool) : List Expr → PVal → Except Err PVal
-  | [], last => .ok last
-  | e :: rest, _ =>
-    match self env e with
-    | .error x => .error x
-    | .ok v => if P.truthy v == isOr then .ok v else rBool P self env isOr rest v
+  | [], last => pure last
+  | e :: rest, _ => do
+    let v ← self env e
+    if P.truthy v == isOr then pure v else rBool P self env isOr rest v
 
 /-- one comparison link -/
 def rCompare (P : Prim) (cfg : RefCfg) (op : String) (l r : PVal) : Except Err PVal :=
@@ -88,55 +81,42 @@ def rCompare (P : Prim) (cfg : RefCfg) (op : String) (l r : PVal) : Except Err P
 /-- `a op1 b op2 c …` = `a op1 b and b op2 c and …`, each operand evaluated once -/
 def rChain (P : Prim) (cfg : RefCfg) (self : Env → Expr → Except Err PVal) (env : Env) :
     PVal → List (String × Expr) → PVal → Except Err PVal
-  | _, [], result => .ok result
-  | left, (op, c) :: rest, _ =>
-    match self env c with
-    | .error x => .error x
-    | .ok right =>
-      match rCompare P cfg op left right with
-      | .error x => .error x
-      | .ok res => if !P.truthy res then .ok res else rChain P cfg self env right rest res
+  | _, [], result => pure result
+  | left, (op, c) :: rest, _ => do
+    let right ← self env c
+    let res ← rCompare P cfg op left right
+    if !P.truthy res then pure res else rChain P cfg self env right rest res
 
 def rIfs (P : Prim) (self : Env → Expr → Except Err PVal) (env : Env) : List Expr → Except Err Bool
-  | [] => .ok true
-  | c :: cs =>
-    match self env c with
-    | .error x => .error x
-    | .ok v => if P.truthy v then rIfs P self env cs else .ok false
+  | [] => pure true
+  | c :: cs => do
+    let v ← self env c
+    if P.truthy v then rIfs P self env cs else pure false
 
 def rForVals (body : PVal → Except Err (Option Bool)) : List PVal → Except Err (Option Bool)
-  | [] => .ok none
-  | v :: vs =>
-    match body v with
-    | .error x => .error x
-    | .ok (some b) => .ok (some b)
-    | .ok none => rForVals body vs
+  | [] => pure none
+  | v :: vs => do
+    match ← body v with
+    | some b => pure (some b)
+    | none => rForVals body vs
 
 /-- the nested `for` clauses of a generator expression consumed by `any` / `all` -/
 def rLoop (P : Prim) (cfg : RefCfg) (self : Env → Expr → Except Err PVal) (c : Consumer) (elt : Expr) :
     List Comp → Env → Except Err (Option Bool)
-  | [], env =>
-    match self env elt with
-    | .error x => .error x
-    | .ok v => .ok (c.step (P.truthy v))
+  | [], env => do
+    let v ← self env elt
+    pure (c.step (P.truthy v))
   | (tgt, iter, ifs) :: rest, env =>
     match tgt with
     | none => .error .unmodelled
-    | some x =>
-      match self env iter with
-      | .error e => .error e
-      | .ok itv =>
-        if !cfg.compiled && itv.isMissing then .error .undefined
-        else
-          match P.iter itv with
-          | .error e => .error e
-          | .ok vals =>
-            rForVals (fun val =>
-              let env' := (x, val) :: env
-              match rIfs P self env' ifs with
-              | .error e => .error e
-              | .ok false => .ok none
-              | .ok true => rLoop P cfg self c elt rest env') vals
+    | some x => do
+      let itv ← self env iter
+      if !cfg.compiled && itv.isMissing then .error .undefined
+      else do
+        let vals ← P.iter itv
+        rForVals (fun val => do
+          if ← rIfs P self ((x, val) :: env) ifs then rLoop P cfg self c elt rest ((x, val) :: env)
+          else pure none) vals
 
 /-- the constructor object behind a whitelisted dotted path -/
 def rResolve (P : Prim) : PVal → List String → Except Err PVal
@@ -146,80 +126,73 @@ def rResolve (P : Prim) : PVal → List String → Except Err PVal
     | .error e => .error e
     | .ok nxt => rResolve P nxt parts
 
+/-- the callable of a call, and whether it is `any`/`all` consuming a generator expression -/
+def rTarget (P : Prim) (cfg : RefCfg) (self : Env → Expr → Except Err PVal) (env : Env)
+    (func : Expr) (args : List Expr) (kwargs : List (String × Expr)) :
+    Except Err (PVal × Option (Consumer × Expr × List Comp)) :=
+  if cfg.compiled then do
+    let f ← self env func
+    pure (f, match f with | .builtin n => consumedGenexp n args kwargs | _ => none)
+  else
+    match resolveAttrPath func with
+    | none => .error .invalidOp
+    | some fname =>
+      if allowedCalls.contains fname then .ok (.builtin fname, consumedGenexp fname args kwargs)
+      else if Gen.WHITELIST.contains fname then do
+        let f ← rResolve P (.ftype "") (splitDot fname)
+        pure (f, none)
+      else .error .invalidOp
+
 def rCall (P : Prim) (cfg : RefCfg) (self : Env → Expr → Except Err PVal) (env : Env)
-    (func : Expr) (args : List Expr) (kwargs : List (String × Expr)) : Except Err PVal :=
-  let target : Except Err PVal :=
-    if cfg.compiled then self env func
-    else
-      match resolveAttrPath func with
-      | none => .error .invalidOp
-      | some fname =>
-        if allowedCalls.contains fname then .ok (.builtin fname)
-        else if Gen.WHITELIST.contains fname then rResolve P (.ftype "") (fname.splitOn ".")
-        else .error .invalidOp
-  match target with
-  | .error e => .error e
-  | .ok f =>
-    let consumer := match f with | .builtin n => consumerOf n | _ => none
-    match consumer, args, kwargs with
-    | some c, [.genexp elt gens], [] =>
-      (match rLoop P cfg self c elt gens env with
-       | .error e => .error e
-       | .ok r => .ok (.bool (r.getD c.default)))
-    | _, _, _ =>
-      match rList self env args with
-      | .error e => .error e
-      | .ok a =>
-        match rKwargs self env kwargs with
-        | .error e => .error e
-        | .ok k => P.call f a k
+    (func : Expr) (args : List Expr) (kwargs : List (String × Expr)) : Except Err PVal := do
+  let t ← rTarget P cfg self env func args kwargs
+  match t.2 with
+  | some (c, elt, gens) => do
+    let r ← rLoop P cfg self c elt gens env
+    pure (.bool (r.getD c.default))
+  | none => do
+    let a ← rList self env args
+    let k ← rKwargs self env kwargs
+    P.call t.1 a k
 
 def refStep (P : Prim) (cfg : RefCfg) (self : Env → Expr → Except Err PVal) (env : Env) (e : Expr) : Except Err PVal :=
   match e with
-  | .const c => .ok (constVal c)
-  | .list es => (rList self env es).map PVal.list
-  | .tuple es => (rList self env es).map PVal.tuple
+  | .const c => pure (constVal c)
+  | .list es => do pure (.list (← rList self env es))
+  | .tuple es => do pure (.tuple (← rList self env es))
   | .name id =>
     (match env.lookup id with
      | some v => .ok v
      | none => refName P cfg id)
   | .attr v a =>
-    if !cfg.compiled && a.startsWith "__" then .error .invalidOp
-    else
-      match self env v with
-      | .error x => .error x
-      | .ok obj =>
-        match P.getattr obj a with
-        | some r => .ok r
-        | none =>
-          if cfg.compiled then
-            (match obj with | .recv _ _ => .ok .missing | _ => .error .attrErr)
-          else .error .undefined
+    if !cfg.compiled && hasPrefix "__" a then .error .invalidOp
+    else do
+      let obj ← self env v
+      match P.getattr obj a with
+      | some r => pure r
+      | none =>
+        if cfg.compiled then
+          (match obj with | .recv _ _ => pure .missing | _ => .error .attrErr)
+        else .error .undefined
   | .boolop op vs => rBool P self env (op == "Or") vs .none
-  | .binop op l r =>
-    (match self env l with
-     | .error x => .error x
-     | .ok lv =>
-       match self env r with
-       | .error x => .error x
-       | .ok rv =>
-         if !cfg.compiled && (lv.isMissing || rv.isMissing) then .error .undefined
-         else
-           match docArith op with
-           | some a => P.arith a lv rv
-           | none => .error .unmodelled)
+  | .binop op l r => do
+    let lv ← self env l
+    let rv ← self env r
+    if !cfg.compiled && (lv.isMissing || rv.isMissing) then .error .undefined
+    else
+      match docArith op with
+      | some a => P.arith a lv rv
+      | none => .error .unmodelled
   | .unary op x =>
-    if op == "Not" then
-      (match self env x with
-       | .error e => .error e
-       | .ok v => .ok (.bool (!P.truthy v)))
+    if op == "Not" then do
+      let v ← self env x
+      pure (.bool (!P.truthy v))
     else .error .unmodelled
-  | .compare l rest =>
-    (match self env l with
-     | .error x => .error x
-     | .ok lv => rChain P cfg self env lv rest (.bool true))
+  | .compare l rest => do
+    let lv ← self env l
+    rChain P cfg self env lv rest (.bool true)
   | .call f args kwargs => rCall P cfg self env f args kwargs
-  | .genexp _ _ => .ok .gen
+  | .genexp _ _ => pure .gen
   | .other _ => .error .unmodelled
 
 def refEval (P : Prim) (cfg : RefCfg) : Nat → Env → Expr → Except Err PVal
